@@ -612,7 +612,7 @@ class P(Prop):
         elif k == "unsupported_type":
             rnd.choice(subs).component_type = rnd.choice([0, 2, 9, 11, 13, 20, 21, 23, 27, 28, 30])
         elif k == "zero_rated" and effs:
-            e = rnd.choice([x for x in effs if hasattr(x, "rated_power_kw")] or [None])
+            e = rnd.choice([x for x in effs + engines if hasattr(x, "rated_power_kw")] or [None])
             if e is None:
                 return None
             e.rated_power_kw = rnd.choice([0.0, -5.0])
